@@ -31,9 +31,10 @@ Proof. vm_compute. split; exact I. Qed.
 
 (* THE GLOBAL INVARIANT (HeapWF.v): typing of every handle against its storage, reference count = number of holders, one holder for a storage
    without control block, none for a dead one, disjoint BytesMut windows, fresh identifiers.  PARTIAL: proved for the operations `covered`
-   (HeapWFMain.v: every constructor, the whole bytes.rs sharing family, drops, Vec conversions, the length-only BytesMut operations);
-   NOT YET for: the Bytes -> Vec / BytesMut conversions and the BytesMut split / reserve / extend / unsplit / freeze / advance operations
-   (those rest on the per-operation theorems above and on the correspondence engine).
+   (HeapWFMain.v): 40 of the 46 operations - every constructor, the whole bytes.rs family (clone, slice, split, truncate, advance, is_unique,
+   try_into_mut, Into<BytesMut>, Into<Vec>, drop), Vec conversions, and of bytes_mut.rs split_off / split_to / split / truncate / clear / write /
+   advance / freeze / Into<Vec> / clone / drop.  NOT YET: reserve, try_reclaim, extend (slice and iterator), resize, unsplit (these rest on the
+   post-condition theorems of C04 and on the correspondence engine).
    For every history of covered, well-typed operations from the empty state, with every oracle: every state is WF and no step is UB. *)
 Theorem C02_invariant_preserved_partial : forall orc o s, covered o = true -> WF s -> op_ok s o ->
   match run_op orc o s with OK _ s' _ => WF s' | PANIC s' _ => WF s' | UB _ => False end.
